@@ -40,6 +40,10 @@ var Deviants = []string{
 	"ReadDir:missing-entry", "ReadDir:duplicate-entry", "ReadDir:wrong-isdir", "ReadDir:no-eof", "ReadDir:ignores-n",
 	"ReadDir:duplicate-in-subdir", "Rename:dest-listed-twice-in-subdir", "Mkdir:listed-twice-in-subdir",
 	"ReadDir:cursor-stuck", "ReadDir:second-page-empty-nil",
+	// "FSReadDir:": the wrapper additionally implements ReadDirFS (listing by name at the FS level)
+	"FSReadDir:unclean-root-names", "FSReadDir:unclean-subdir-names", "FSReadDir:unsorted",
+	// the error kind of one specific failure is replaced by a neighbouring kind
+	"Remove:notempty-as-exist", "Mkdir:exist-as-isdir", "Remove:notexist-as-notdir",
 	// "@prefix": run with Constraints.AllowErrPathPrefix (as for file systems whose error paths carry an outer prefix).
 	// Every error path gets the prefix "/mnt/root/"; the deviant glues the name on without the separator (a different file).
 	"Remove:errpath-glued-prefix@prefix", "Stat:errpath-glued-prefix@prefix", "Open:errpath-glued-prefix@prefix",
@@ -70,6 +74,53 @@ type DevFS struct {
 	// Prefixed: error paths carry the outer prefix "/mnt/root/" (the suite then runs with AllowErrPathPrefix)
 	Prefixed bool
 	twice    sync.Map // directory -> base name that this directory lists twice (…-listed-twice-in-subdir)
+}
+
+// DevFSRD is a DevFS that also lists directories by name (ReadDirFS); used for the "FSReadDir:" deviants and their baseline.
+type DevFSRD struct{ *DevFS }
+
+type renamedEntry struct {
+	hackpadfs.DirEntry
+	name string
+}
+
+func (r renamedEntry) Name() string { return r.name }
+
+func (d DevFSRD) ReadDir(name string) ([]hackpadfs.DirEntry, error) {
+	f, err := d.inner.Open(name)
+	if err != nil {
+		return nil, d.errDev("Open", err)
+	}
+	defer func() { _ = f.Close() }()
+	entries, err := hackpadfs.ReadDirFile(f, -1)
+	if err != nil {
+		return nil, err
+	}
+	sort.Slice(entries, func(i, j int) bool { return entries[i].Name() < entries[j].Name() })
+	switch {
+	case d.is("FSReadDir:unclean-root-names") && name == ".", d.is("FSReadDir:unclean-subdir-names") && name != ".":
+		for i, e := range entries {
+			d.fire()
+			entries[i] = renamedEntry{e, "./" + e.Name()} // cleans to a valid name, but is not one
+		}
+	case d.is("FSReadDir:unsorted") && len(entries) > 1:
+		d.fire()
+		entries[0], entries[len(entries)-1] = entries[len(entries)-1], entries[0]
+	}
+	return entries, nil
+}
+
+// NewFS returns the deviant as the interface value the suite gets: with or without the FS-level ReadDir.
+func NewFS(dev string, fired *int64) interface {
+	hackpadfs.FS
+	hackpadfs.MkdirFS
+	hackpadfs.OpenFileFS
+} {
+	d := New(dev, fired)
+	if strings.HasPrefix(dev, "FSReadDir:") {
+		return DevFSRD{d}
+	}
+	return d
 }
 
 // New returns a deviant file system.
@@ -116,6 +167,20 @@ func (d *DevFS) errDev(op string, err error) error {
 			return &hackpadfs.LinkError{Op: e.Op, Old: glue + e.Old, New: glue + e.New, Err: e.Err}
 		}
 		return err
+	}
+	if alt, ok := map[string][2]error{
+		"Remove:notempty-as-exist":  {hackpadfs.ErrNotEmpty, hackpadfs.ErrExist},
+		"Mkdir:exist-as-isdir":      {hackpadfs.ErrExist, hackpadfs.ErrIsDir},
+		"Remove:notexist-as-notdir": {hackpadfs.ErrNotExist, hackpadfs.ErrNotDir},
+	}[d.Dev]; ok && strings.HasPrefix(d.Dev, op+":") && errors.Is(err, alt[0]) {
+		d.fire()
+		switch e := err.(type) {
+		case *hackpadfs.PathError:
+			return &hackpadfs.PathError{Op: e.Op, Path: e.Path, Err: alt[1]}
+		case *hackpadfs.LinkError:
+			return &hackpadfs.LinkError{Op: e.Op, Old: e.Old, New: e.New, Err: alt[1]}
+		}
+		return alt[1]
 	}
 	switch d.Dev {
 	case op + ":wrong-errkind":
